@@ -91,7 +91,7 @@ std::string to_text(const GCase& c)
     std::ostringstream s;
     const bool         big = c.big && (c.kind == 8 || c.kind == 9); // large universes only for the unbounded containers
     int                uni = big ? 70 + (c.seed % 80) : c.cap + c.extra;
-    const size_t       lim = big ? 128 : 8;
+    const size_t       lim = (big || c.cap >= 16) ? 128 : 8; // long ranges only where they can matter
     s << "kind " << kKindName[c.kind] << "\nsync " << (c.sync ? 1 : 0) << "\ntypes " << c.types << "\ncap " << c.cap << "\nuni " << uni << "\nmlf "
       << kMlf[c.mlf_idx] << "\nttl " << c.ttl << "\ntick " << c.tick << "\nratio " << kRatioN[c.ratio_idx] << " " << kRatioD[c.ratio_idx] << "\nseed "
       << c.seed << "\n--\n";
@@ -157,7 +157,7 @@ Profile make_profile(const std::string& name)
     int general[] = {34, 6, 10, 3, 10, 3, 4, 3, 2, 2, 1, 1, 6, 5, 2, 0};
     std::memcpy(p.w, general, sizeof general);
     p.ttls = {{2, 0}, {6, 1}, {8, 2}, {8, 3}, {10, 5}, {6, 8}, {6, 50}, {4, 1000}};
-    p.caps = {{12, 1}, {20, 2}, {20, 3}, {14, 4}, {6, 5}, {4, 6}, {3, 7}, {3, 8}, {1, 16}, {1, 33}};
+    p.caps = {{12, 1}, {20, 2}, {20, 3}, {14, 4}, {6, 5}, {4, 6}, {3, 7}, {3, 8}, {1, 16}, {1, 17}, {1, 33}, {1, 64}, {1, 100}};
     if (name == "general")
     {
         p.big_pct = 6;
@@ -285,7 +285,7 @@ rc::Gen<GOp> gen_op(const Profile& p)
     auto small = rc::gen::resize(8, rc::gen::container<std::vector<GElem>>(elem));
     auto belem = rc::gen::build<GElem>(rc::gen::set(&GElem::k, uni_int(0, 159)), rc::gen::set(&GElem::ttl, ttl));
     auto bulk  = rc::gen::resize(120, rc::gen::container<std::vector<GElem>>(belem));
-    auto elems = p.big_pct > 0 ? rc::gen::oneOf(small, small, small, small, small, bulk) : small;
+    auto elems = rc::gen::oneOf(small, small, small, small, small, bulk); // `bulk` is cut to 8 elements when printed unless the case is big
     std::vector<std::pair<std::size_t, long long>> dts = {{2, 0},        {2, 1},        {3, 999999},    {6, 1000000},  {3, 1000001}, {6, 2000000},
                                                           {6, 3000000},  {3, 2999999},  {6, 5000000},   {2, 4999999},  {2, 5000001}, {3, 8000000},
                                                           {2, 10000000}, {2, 50000000}, {1, 1000000000}};
